@@ -69,6 +69,10 @@ def run(res, tier, seed, shard, nshards):
             for silent_from in (0, 2):
                 jobs.append(("silent-dt", interval, to, 0.0, silent_from, "none", T))
             jobs.append(("responsive-dt", interval, to, 0.0, "half", "periodic", T))
+    # unsolicited pongs from a peer that answers every ping
+    for interval, to in ((1.0, 0.4), (2.0, 0.5), (3.0, 1.0)):
+        for latency in ("zero", "half"):
+            jobs.append(("responsive", interval, to, 0.0, latency, "unsolicited-pongs"))
     # a fragmented message straddling every ping/pong exchange
     for interval, to in ((1.0, 0.4), (2.0, 0.5), (3.0, 1.0), (0.6, 0.25)):
         for latency in ("zero", "eps", "half"):
@@ -115,6 +119,11 @@ def run(res, tier, seed, shard, nshards):
             continue
         if job[0] == "interleave":
             interleave_case(res, W, rng, *job[1:], n=(12 if quick else 150), seed=seed * 1000 + ji)
+            continue
+        if job[0] in ("silent", "responsive") and ji % 3 == 0:
+            with H.ambient((ji, "C16"), res, dims=("app",)):
+                for tie in ("loop-first", "ping-first"):
+                    (silent_case if job[0] == "silent" else responsive_case)(res, W, rng, *job[1:], tie=tie)
             continue
         if job[0] == "silent-dt":
             for tie in ("loop-first", "ping-first"):
@@ -269,7 +278,16 @@ def responsive_case(res, W, rng, interval, to, phase, latency, traffic, tie, slo
     eps = 1e-3
     lat = {"zero": 0.0, "eps": eps, "half": to / 2, "almost": to - eps, "exact": to}[latency]
     dur = 22 * interval
-    if traffic == "fragments-straddle-pings":
+    if traffic == "unsolicited-pongs":
+        # the peer also sends pongs nobody asked for (a one-way heartbeat, RFC 6455 5.5.3), at moments later than one timeout after
+        # the latest ping: every ping is still answered at once
+        script = []
+        for k in range(2, 22):
+            tp = k * interval
+            if interval > 1.6 * to:
+                script.append((tp + 1.3 * to, "frames", R.encode(R.PONG, b"heartbeat")))
+        script.append((dur, "close", b"\x03\xe8"))
+    elif traffic == "fragments-straddle-pings":
         # a fragmented message around every keepalive exchange: its first fragment arrives just before the ping goes out, its last one
         # after the pong (but before the timeout would expire) - the pong is read in the middle of one message-level receive
         script = []
